@@ -58,5 +58,6 @@ Print Assumptions C02_through_needs_link.
 (* The one syntactic fact (regenerated on every run from the source text being compiled): the only
    Command kinds boss_sync.rs sends through src_comms are the three read-only ones. *)
 From RJ Require Import Gen.Facts_sites.
-Theorem C02_src_sites_read_only : impl_src_sends = Facts_sites.flit "GetEntries,GetFileContent,SetRoot".
+From Coq Require Import String.
+Theorem C02_src_sites_read_only : impl_src_sends = Facts_sites.flit "GetEntries,GetFileContent,SetRoot"%string.
 Proof. reflexivity. Qed.
